@@ -27,6 +27,13 @@ FRAGS = {k: kani.FRAGMENTS[k] for k in ('ceval.rs', 'astutil.rs', 'uiexpr.rs')}
 
 def run(res, args):
     kani.check_property(res, 'c03', FRAGS, SPECS)
+    from . import mir_obligations as O
+    fns, consts = O.load()
+
+    def replay(ob, d):
+        rep, info = O.replay_ceval(d)
+        return rep, info, {'site': 'eval_binary_arith_expression dispatch', 'probe': info['failed_probes'][0]['expression'] if info['failed_probes'] else None}
+    O.merge(res, O.ceval_divrem(fns, consts), res.coverage, replay, 'ceval')
     res.assumptions += [
         "escape decoding: a '+' where the tokenizer only ever produces a hex digit is outside the oracle (std's from_str_radix accepts it; tree-sitter's escape_sequence token cannot contain it)",
         'ordering comparisons of two bool constants are outside the Kani oracle (CBMC orders 1-bit values as signed; caught by native replay in the design phase)',
